@@ -55,6 +55,9 @@ CHECKS = {
  "C13": dict(cat="exploration", tech="property-based testing of expression trees on each backend's linear-combination class with a representation-level evaluator; number-theoretic checks of modulus and inverse",
    text="Random expression trees with adversarial scalars are built on each proof-producing backend's own LC class (snarkjs, three zkinterface configurations, qaptools) and evaluated through the representation; operands are snapshotted around every operation; get_modulus() is compared with the group order recomputed from the curve definition and tested for primality; fieldinverse is checked on non-zero, negative, unreduced and zero-congruent arguments. Exploration; libsnark's native class is not covered.",
    note=TB + "; libsnark is not installed and cannot be: its C++ LC class is outside this check.", ref="4 (C13)"),
+ "C12": dict(cat="exploration", tech="property-based testing with one fresh interpreter per generated program; independent parser/evaluator of the qaptools files; interface-level trace logged in the child",
+   text="Generated programs with @subqap functions (multiple and nested calls, list/tuple arguments, optional conflicting bodies under one name, negative/large values) run on the real qaptools backend with failing stubs for the external tools; the equation, wire, I/O, schedule and per-function files (the latter as written by the backend's own proving step) are parsed independently and checked for satisfaction, public-value links, completeness and purity of every per-function equation set against the logged trace, digest consistency / reported inconsistency, and glue blocks. Exploration.",
+   note=TB + "; qaptools binaries are not available offline (stubs exit 1), so only pysnark's own splitting step runs.", ref="4 (C12), 2.5"),
 }
 PENDING = {}
 
